@@ -24,7 +24,8 @@ func (c *Ctx) SignerRefusalReasons(prop string) {
 	}
 	denied, ok1 := c.EnumConst(rule, pkgCore, "ResultDenied")
 	failed, ok2 := c.EnumConst(rule, pkgCore, "ResultFailed")
-	if !ok1 || !ok2 {
+	approved, ok3 := c.EnumConst(rule, pkgRules, "APPROVED")
+	if !ok1 || !ok2 || !ok3 {
 		return
 	}
 	n := 0
@@ -112,9 +113,45 @@ func (c *Ctx) SignerRefusalReasons(prop string) {
 			root, _, ok := elemLoad(v)
 			return ok && root == run.Value()
 		}
+		// strong reasons justify a refusal wherever they lie on the path (must-pass-through); "the request itself" only as
+		// the branch that enters the refusing site (the negated validations are request-only atoms too)
+		strong := func(a *an.Atom) string {
+			if a == nil {
+				return ""
+			}
+			for _, side := range [][2]ssa.Value{{a.LV, a.RV}, {a.RV, a.LV}} {
+				if side[0] == nil {
+					continue
+				}
+				if a.Op == "!=" && isErrorTyped(side[0]) && isNilConst(side[1]) {
+					return "a step returned an error"
+				}
+				if isVerdict(side[0]) {
+					if (a.Op == "!=" && an.IsConstInt(side[1], approved)) || (a.Op == "==" && !an.IsConstInt(side[1], approved)) {
+						return "the rules' verdict"
+					}
+				}
+				if namedIs(side[0].Type(), pkgCore, "Result") && a.Op == "!=" {
+					if _, isCall := side[0].(*ssa.Extract); isCall {
+						return "a helper's result is not SUCCEEDED"
+					}
+				}
+			}
+			if a.Op == "false" {
+				if ex, ok := a.LV.(*ssa.Extract); ok {
+					if _, isTA := ex.Tuple.(*ssa.TypeAssert); isTA {
+						return "a type assertion failed"
+					}
+				}
+			}
+			return ""
+		}
 		classify := func(a *an.Atom) string {
 			if a == nil {
 				return ""
+			}
+			if r := strong(a); r != "" {
+				return r
 			}
 			// step failure: err != nil, !ok, result != SUCCEEDED
 			for _, side := range [][2]ssa.Value{{a.LV, a.RV}, {a.RV, a.LV}} {
@@ -196,6 +233,14 @@ func (c *Ctx) SignerRefusalReasons(prop string) {
 						}
 					}
 					back(site.Block(), 0)
+					if len(bad) > 0 {
+						// a cosmetic branch below a justified one: every path to the site has passed a strong reason
+						target := site
+						if x, _ := an.Cut(an.CutQuery{From: an.Entry(f), Target: func(i ssa.Instruction) bool { return i == target },
+							AcceptEdge: func(b *ssa.BasicBlock, i int, a *an.Atom) bool { return strong(a) != "" }}); x == nil {
+							bad = nil
+						}
+					}
 					if len(bad) > 0 {
 						c.R.Fail(rule, Fn(f), c.Pos(site), "a request is refused for a reason that is neither the request itself, nor the rules' verdict, nor a failed step: ["+bad[0]+"] (state kept between requests can refuse a request that every serial order signs)", "refusals only for malformed requests, non-approving verdicts and failed steps", nil)
 					} else {
